@@ -2,10 +2,10 @@
 
 from __future__ import annotations
 
-from ..cache import deps, readers_of_cache
+from ..cache import readers_of_cache
 from ..model import AnalysisError
 from ..report import RuleResult
-from ._c17_cache import ShapeFreeCacheAnalysis as CacheAnalysis, memo_getters
+from ._c17_cache import ShapeFreeCacheAnalysis as CacheAnalysis, deps, memo_getters
 
 
 def cache_rule(ctx, rule_id, prop_id, base_names, floor, clause, only_fields=None, only_props=None):
@@ -502,8 +502,20 @@ def _reads_origin_by_field(ctx, fn, backing) -> bool:
             base, _ = fl.resolve(x.value)
             if key_of(base) not in [f"{sn}.{a}" for a in {"origin"} | backing]:
                 continue
-            if any(isinstance(a, ast.Constant) and isinstance(a.value, str) for a in fl.atoms(x.slice)):
+            atoms = list(fl.atoms(x.slice))
+            if any(isinstance(a, ast.Constant) and isinstance(a.value, str) for a in atoms):
                 out = True
+                break
+            # a table of field names hoisted to module level in another module (the body of a helper of a base class, expanded here,
+            # still names it as that module does): looked up in the modules of the classes this function's class derives from
+            mods = [fn.module] + [c.module for c in (fn.cls.mro if fn.cls is not None else []) if not isinstance(c, str) and c.module is not None]
+            for a in atoms:
+                if isinstance(a, ast.Name) and isinstance(a.ctx, ast.Load) and not fl.reaching(a)[0] and a.id not in fl.params:
+                    for mod in mods:
+                        r = ctx.p.resolve_name(mod, a.id)
+                        if r and r[0] == "assign" and any(isinstance(c, ast.Constant) and isinstance(c.value, str) for c in ast.walk(r[1][1])):
+                            out = True
+            if out:
                 break
     ctx.cache[key] = out
     return out
